@@ -84,6 +84,13 @@ Theorem C01_line_edge_new_no_panic :
   line_edge_new p0 p1 shift <> None.
 Proof. exact line_edge_new_no_panic_px. Qed.
 
+(* hence the whole edge builder (PathEdgeIter + LineEdge::new + combine_vertical) cannot panic on a line-only path whose points are
+   finite and within that range *)
+Theorem C01_build_edges_no_panic :
+  forall p shift segs, 0 <= shift <= 8 -> path_lines p = Some segs -> Forall (pt_ok shift) (ppoints p) ->
+  build_edges p shift <> None.
+Proof. exact build_edges_no_panic. Qed.
+
 (* the debug assertion `y0 <= y1 && y1 <= y2` of QuadraticEdge::new2 holds for every piece chop_quad_at_y_extrema produces
    (Model/CurveFill.v), for every quad with finite ordinates up to 2^100: the chopped pieces and the forced-monotone fallback are
    monotone by construction, and the test `is_not_monotonic` looks at the signs of binary32 differences, which are the signs of
